@@ -3,7 +3,7 @@
    Model: State/StateModel.v (core/state statedb.go, state_object.go, journal.go at content level;
    H = Keccak-256 is a parameter: nothing is assumed about it except where stated). *)
 From AQ Require Import Lib.Bytes State.StateSpec State.StateModel State.StateProofs State.StateRefute
-  State.StateUndoLemmas State.StateRevertProof State.StatePerm State.StateCopy State.StateRoot State.StateFinal State.StateAbs State.StateAbsProofs.
+  State.StateUndoLemmas State.StateRevertProof State.StatePerm State.StateCopy State.StateRoot State.StateFinal State.StateAbs State.StateAbsProofs State.StateDb State.StateDbProofs.
 From Coq Require Import Permutation.
 Import ListNotations.
 Local Open Scope N_scope.
@@ -166,6 +166,52 @@ Theorem C09_commit_reopen :
 Proof. exact commit_reopen. Qed.
 Print Assumptions C09_commit_reopen.
 
+(* From the content level down to the disk store (partial).  State/StateDb.v models what
+   StateDB.Commit does to the trie node database of C10's Trie/DbModel.v: per dirty object the code
+   blob is inserted under its hash (when dirtyCode) and the storage trie under its root; the account
+   trie is inserted under the state root with, as child references, the storage root (unless empty)
+   and the code hash (unless emptyCode) of EVERY leaf — the leaf callback; then Database.Commit(root)
+   (C10's tdb_commit) flushes what is reachable through the references.  Theorem: if the account
+   root node carries these references and every referenced key is in the node database (memory or
+   disk) with, for code, the bytes the model's code store holds, then after the flush the root blob
+   is on disk and a StateDB opened over a FRESH database on that disk (disk_state: missing storage
+   opens empty, code is read from disk) reads every account's nonce, balance, code hash, CODE BYTES
+   and every storage slot like the committed StateDB.  Uses C10's tdb_commit_disk (C10_db_commit_disk).
+   PARTIAL: (i) a committed trie is ONE node (the inside of a trie is C10's); (ii) the two
+   availability premises are not derived from the Commit loop (commit_db_one) — they are evaluated
+   on the implementation by the harness (correspondence on the key set + oracle O6) and shown for a
+   concrete commit in C09_example_disk; (iii) premise H collision-free and commit_premises as in
+   C09_commit_reopen; (iv) Finalise in between is covered only through commit_premises. *)
+Theorem C09_commit_reopen_from_disk_partial :
+  forall (H : bytes -> bytes) (enc_storage : smap -> bytes) (enc_trie : list (N * acct) -> bytes),
+  (forall x y, H x = H y -> x = y) ->
+  forall b s s' r m d fuel limit m' d',
+    commit H b s = Ok (s', r) -> commit_premises H b s ->
+    let m1 := commit_db H enc_storage enc_trie b s r m in
+    DbModel.mem_get m1 (tkey H r) = Some (DbModel.mkMnode (enc_trie r) (refs H r)) ->
+    (forall a ac, aget a r = Some ac -> a_root ac <> [] ->
+       DbModel.mem_get m1 (skey H (a_root ac)) <> None \/ DbModel.disk_get d (skey H (a_root ac)) <> None) ->
+    (forall a ac, aget a r = Some ac -> a_ch ac <> H [] ->
+       exists c, bget (a_ch ac) (st_codes s') = Some c /\
+         ((exists n, DbModel.mem_get m1 (a_ch ac) = Some n /\ DbModel.mn_blob n = c) \/
+          (DbModel.mem_get m1 (a_ch ac) = None /\ DbModel.disk_get d (a_ch ac) = Some c))) ->
+    NoDup (akeys r) ->
+    DbModel.tdb_commit fuel limit m1 [] d (tkey H r) = TrieModel.Ok (m', d') ->
+    DbModel.disk_get d' (tkey H r) = Some (enc_trie r) /\
+    forall a, same_account (account_view H (disk_state H d' r) a) (account_view H s' a) /\
+              forall k, get_state (disk_state H d' r) a k = get_state s' a k.
+Proof. exact commit_reopen_from_disk. Qed.
+Print Assumptions C09_commit_reopen_from_disk_partial.
+
+(* the first premise holds whenever the root is new to the memory layer (the callback's references
+   are exactly `refs`) *)
+Theorem C09_commit_db_root_references :
+  forall (H : bytes -> bytes) enc_storage enc_trie b s r m, r <> [] ->
+    DbModel.mem_get (fold_left (commit_db_one H enc_storage b s) (akeys (st_live s)) m) (tkey H r) = None ->
+    DbModel.mem_get (commit_db H enc_storage enc_trie b s r m) (tkey H r) = Some (DbModel.mkMnode (enc_trie r) (refs H r)).
+Proof. exact commit_db_root_node. Qed.
+Print Assumptions C09_commit_db_root_references.
+
 (* Copy reads like the original, under the same two hypotheses *)
 Theorem C09_copy_obs :
   forall (H : bytes -> bytes) s c,
@@ -324,4 +370,23 @@ Example C09_example_abs :
 Proof.
   split; [exact (inv_new_state ex_trie [])|]. split; [reflexivity|]. split; [vm_compute; reflexivity|].
   split; [reflexivity|]. split; [eexists; vm_compute; reflexivity|]. vm_compute. repeat split.
+Qed.
+
+(* non-vacuity for C09_commit_reopen_from_disk_partial: the commit of ex3 (H = identity, empty node
+   database and disk): the root node carries the references, every referenced key was inserted by
+   this Commit (boolean forms of the two availability premises), and the flush succeeds *)
+Example C09_example_disk :
+  let enc := (fun _ : smap => @nil Byte.byte) in let enct := (fun _ : list (N * acct) => @nil Byte.byte) in
+  match commit idH true ex3 with
+  | Ok (s', r) =>
+    let m1 := commit_db idH enc enct true ex3 r [] in
+    DbModel.mem_get m1 (tkey idH r) = Some (DbModel.mkMnode (enct r) (refs idH r)) /\
+    forallb (fun k => match DbModel.mem_get m1 k with Some _ => true | None => false end) (refs idH r) = true /\
+    refs idH r <> [] /\ NoDup (akeys r) /\
+    (exists m' d', DbModel.tdb_commit 10 100 m1 [] [] (tkey idH r) = TrieModel.Ok (m', d'))
+  | Panic => False
+  end.
+Proof.
+  vm_compute. split; [reflexivity|]. split; [reflexivity|]. split; [discriminate|].
+  split; [repeat constructor; cbn; intuition discriminate|]. eexists. eexists. reflexivity.
 Qed.
